@@ -75,6 +75,8 @@ fixed("D35", "C16", "9ded0d1", "INSERT INTO t SELECT * FROM t never returned (th
 fixed("D35b", "C16", "e7f1954", "INSERT INTO t SELECT * FROM t on a table of more than one leaf never returned: the exhausted source scan kept its last leaf latched and the first insert waited for it", "O-live:hang", "findings/D35b-insert-select-from-same-table-of-several-leaves-never-returns.json")
 fixed("R1", "C02", "e2afc48", "checkpoint, then an unfinished transaction deletes a row of a table with a UNIQUE index, its log records reach the file, crash: open failed with 'UNIQUE constraint violated' (undo re-inserted the row, which was still there unmarked)", "O-open", "findings/R1-undo-of-delete-reinserts-live-row-unique-violation-open-fails.json")
 fixed("R1b", "C02", "e2afc48", "an unfinished transaction deletes a row whose committed INSERT is still in the log, crash: open failed with 'UNIQUE constraint violated' (undo inserted the row, then redo inserted it again)", "O-open", "findings/R1b-undo-of-delete-inserts-row-whose-insert-is-redone.json")
+fixed("R1c", "C01", "5fd18a0", "a row carrying the stale delete mark of a rolled-back transaction is checkpointed, an unfinished transaction deletes it, its log records reach the file, crash: open failed with 'UNIQUE constraint violated' (undo took the stale mark for the one to undo and re-inserted the row)", "O-open", "findings/R1c-undo-of-delete-meets-stale-mark-of-rolled-back-transaction.json")
+fixed("D26", "C04", "5ffff49", "a session begun while the last committed transaction id was still 0 (before or right after the first autocommit statement of a new database) had no upper bound on its snapshot and saw everything that committed later", "O-res", "findings/D26-session-begun-before-any-commit-sees-later-commits.json")
 
 # ---- open findings: plans and indexes (C06) ----
 fixed("J1", "C06", "0093459", "an equi-join lost matching rows when the left input held a NULL in the join column (merge join compared a NULL key as greater than every right key and ran the right input dry)", "O-plan", "findings/J1-equi-join-with-null-join-key-loses-matches.json")
